@@ -25,6 +25,9 @@ type RuntimeOpts struct {
 	// parameter is one element). The unchanged Go client does not compile for such fields, so
 	// only server-side checks may ask for it.
 	RepeatedQuery bool
+	// OverrideServiceHeader: in GenMultiServiceFile some methods re-declare a service header with
+	// another type / format.
+	OverrideServiceHeader bool
 }
 
 var urlFieldNames = []string{"user_id", "org", "page", "q", "name", "ratio", "flag", "item_id", "limit", "cursor", "since", "tenant_name"}
